@@ -587,6 +587,14 @@ func (c *grammarClient) PostAssign(e *Engine, st *State, lhs, rhs []ast.Expr, _ 
 	}
 	// f := initKnownFunctions()[x.Func.Name]
 	if len(rhs) == 1 && len(lhs) >= 1 {
+		// sql, ok := ctx.scope[name] / table[name]: where the text came from travels with the value (through the
+		// results of a lookup helper, too)
+		if ix, ok := ast.Unparen(rhs[0]).(*ast.IndexExpr); ok {
+			if org := mapOrigin(e.Info, ix); org != "" {
+				st = e.SetTag(st, lhs[0], "origin:"+org)
+				changed = true
+			}
+		}
 		if ix, ok := ast.Unparen(rhs[0]).(*ast.IndexExpr); ok {
 			if call, ok := ast.Unparen(ix.X).(*ast.CallExpr); ok {
 				if f := Callee(e.Info, call); f != nil && fnName(f) == "initKnownFunctions" {
@@ -991,6 +999,17 @@ func (c *grammarClient) rawOrigin(e *Engine, st *State, ev *emitEvent) string {
 	// an identifier bound by `v, ok := M[k]`
 	if id, ok := arg.(*ast.Ident); ok {
 		obj := objOf(info, id)
+		if f := e.FactOf(st, id); f != nil {
+			var orgs []string
+			for _, t := range f.Tags {
+				if strings.HasPrefix(t, "origin:") {
+					orgs = append(orgs, strings.TrimPrefix(t, "origin:"))
+				}
+			}
+			if len(orgs) == 1 {
+				return orgs[0]
+			}
+		}
 		var def *ast.IndexExpr
 		scope := ast.Node(c.fd.Body)
 		if obj != nil {
@@ -1017,6 +1036,9 @@ func (c *grammarClient) rawOrigin(e *Engine, st *State, ev *emitEvent) string {
 					return "scope"
 				}
 			}
+		}
+		if words := c.g.p.constWordParam(obj); words != "" {
+			return "constparam: " + words
 		}
 		if c.g.p.assembledSQL(id, 0) {
 			return "assembled: text of a checked builder (handed in by every caller, or built by a helper)"
@@ -1055,6 +1077,20 @@ func (c *grammarClient) rawOrigin(e *Engine, st *State, ev *emitEvent) string {
 	return "tainted: " + exprStr(arg)
 }
 
+// mapOrigin names the map a lookup reads: the scope of an expression context or a package-level table.
+func mapOrigin(info *types.Info, ix *ast.IndexExpr) string {
+	if _, isMap := info.TypeOf(ix.X).Underlying().(*types.Map); !isMap {
+		return ""
+	}
+	if v, ok := objOf(info, ix.X).(*types.Var); ok && v.Pkg() != nil && v.Parent() == v.Pkg().Scope() {
+		return "constmap:" + objName(v)
+	}
+	if f := selField(info, ix.X); f != nil && fldName(f) == "scope" {
+		return "scope"
+	}
+	return ""
+}
+
 // replacerPairs: the constant old/new table of the strings.Replacer a WriteString call goes through
 // (a package-level variable initialised with strings.NewReplacer(...constants...)), as "old\x00new\x00...".
 func (c *grammarClient) replacerPairs(e *Engine, call *ast.CallExpr) (string, bool) {
@@ -1063,14 +1099,15 @@ func (c *grammarClient) replacerPairs(e *Engine, call *ast.CallExpr) (string, bo
 		return "", false
 	}
 	var init ast.Expr
-	if v, ok := objOf(e.Info, sel.X).(*types.Var); ok && v.Pkg() != nil && v.Parent() == v.Pkg().Scope() && c.g.p.globalNeverWritten(v) {
+	recv := e.ResolveExpr(sel.X) // the replacer handed to a shared helper stands for the caller's argument
+	if v, ok := objOf(e.Info, recv).(*types.Var); ok && v.Pkg() != nil && v.Parent() == v.Pkg().Scope() && c.g.p.globalNeverWritten(v) {
 		for _, pkg := range c.g.p.All {
 			if pkg.Types == v.Pkg() {
 				init = c.g.p.PkgVarValue(pkg, v.Name())
 			}
 		}
 	} else {
-		init = c.g.p.DefOf(sel.X)
+		init = c.g.p.DefOf(recv)
 	}
 	nc, ok := ast.Unparen(init).(*ast.CallExpr)
 	if !ok {
@@ -1145,4 +1182,91 @@ func (p *Program) stripsParens(fn *types.Func) bool {
 		fmt.Fprintf(os.Stderr, "stripsParens(%s) = %v (ok=%v seen=%v errs=%v)\n", fn.Name(), p.strips[fn], c.ok, c.seen, e.Errs)
 	}
 	return p.strips[fn]
+}
+
+// constWordParam: obj is a string parameter of an unexported module function and every call of that function passes a
+// constant made of letters, digits and underscores (the SQL name a shared writer is told to use). Returns the
+// words, or "".
+func (p *Program) constWordParam(obj types.Object) string {
+	v, ok := obj.(*types.Var)
+	if !ok || v.Pkg() == nil {
+		return ""
+	}
+	fd := p.FuncAt(v.Pos())
+	if fd == nil || fd.Body == nil || fd.Name.IsExported() || p.isClosureDecl(fd) {
+		return ""
+	}
+	fn, _ := p.Info.Defs[fd.Name].(*types.Func)
+	if fn == nil {
+		return ""
+	}
+	sig := fn.Type().(*types.Signature)
+	idx := -1
+	for i := 0; i < sig.Params().Len(); i++ {
+		if sig.Params().At(i) == v {
+			idx = i
+		}
+	}
+	if idx < 0 || sig.Variadic() {
+		return ""
+	}
+	// never assigned inside the function
+	written := false
+	ast.Inspect(fd.Body, func(n ast.Node) bool {
+		switch s := n.(type) {
+		case *ast.AssignStmt:
+			for _, l := range s.Lhs {
+				if objOf(p.Info, l) == obj {
+					written = true
+				}
+			}
+		case *ast.UnaryExpr:
+			if s.Op == token.AND && objOf(p.Info, s.X) == obj {
+				written = true
+			}
+		}
+		return true
+	})
+	if written {
+		return ""
+	}
+	var words []string
+	bad := false
+	for _, pkg := range p.All {
+		for _, other := range AllFuncs(pkg) {
+			ast.Inspect(other.Body, func(n ast.Node) bool {
+				switch x := n.(type) {
+				case *ast.CallExpr:
+					if Callee(pkg.TypesInfo, x) != fn {
+						return true
+					}
+					if idx >= len(x.Args) {
+						bad = true
+						return true
+					}
+					s, ok := constString(pkg.TypesInfo, x.Args[idx])
+					if !ok || s == "" {
+						bad = true
+						return true
+					}
+					for _, r := range s {
+						if !(r == '_' || r >= '0' && r <= '9' || r >= 'a' && r <= 'z' || r >= 'A' && r <= 'Z') {
+							bad = true
+						}
+					}
+					words = append(words, s)
+				case *ast.Ident:
+					if pkg.TypesInfo.Uses[x] == fn && !p.isCallFun(pkg, other, x) {
+						bad = true // used as a value: its callers are not all known
+					}
+				}
+				return true
+			})
+		}
+	}
+	if bad || len(words) == 0 {
+		return ""
+	}
+	sort.Strings(words)
+	return strings.Join(words, "|")
 }
